@@ -4,11 +4,11 @@ CONSTANTS
   Types = {1}
   Langs = {0, 1}
   Names = {1}
-  Feats = {1, 2}
+  Feats = {0, 1}
   FTypes = {1}
   Vars = {1, 2}
-  Vals = {1, 2}
-  MaxIds = 2
+  Vals = {0, 1}
+  MaxIds = 1
   MaxFeats = 2
   MaxFields = 1
   MaxVals = 1
